@@ -19,3 +19,38 @@ CHECKS = {
 }
 
 NOT_APPLICABLE = {p: _WIP for p in [f"C{i:02d}" for i in range(1, 21)] if p not in CHECKS}
+
+CHECKS["C07"] = {
+    "category": "proof",
+    "text": ("AsymptoticCalculator.{__init__,teststatistic,distributions,pvalues,expected_pvalues} and AsymptoticTestStatDistribution.{cdf,pvalue,"
+             "expected_value} are executed symbolically on the current source for q, qtilde, q0 x normal, clipped_normal. The formulae of the statement "
+             "(CLsb, CLb for both qtilde branches, agreement at the seam, CLs ratio, expected values Phi(-N-sqrt qA)/Phi(-N), 0<=CLsb<=CLb<=1, 0<=CLs<=1, "
+             "band monotone, clipped variant never below the cutoff, observed statistic never in the NaN branch) are composite postconditions over all "
+             "q >= 0, q_A > 0 discharged by z3, plus the wiring of the statistic/Asimov calls."),
+    "note": ("Phi and sqrt uninterpreted with ground-instantiated axioms (monotone, range, symmetry; sqrt^2); band monotonicity additionally uses "
+             "log-concavity of Phi as a trusted axiom; 'representable tails' read as Phi total and exact; the library normal cdf itself is C04"),
+    "technique": "contract-based deductive verification: symbolic execution of the real AST, composite postconditions discharged by z3 (NRA with axiomatised Phi/sqrt), native stub replay",
+}
+CHECKS["C08"] = {
+    "category": "proof",
+    "text": ("hypotest is executed symbolically for all 16 flag combinations x {test_stat absent, any string} with the calculator as a typed opaque "
+             "object: returned tuple == documented layout (discovery and non-discovery), teststatistic before distributions, arguments of every "
+             "calculator call, defaults taken from the model iff a setting is None/empty, refusals only from the prerequisite check; "
+             "_check_hypotest_prerequisites raises UnspecifiedPOI iff no POI and InvalidModel iff the POI is fixed; generate_asimov_data == "
+             "expected_data(fixed_poi_fit(asimov_mu, ...)); create_calculator table. The analytic-value clause for counting models is NOT decided."),
+    "note": "numeric agreement with closed-form asymptotic values needs the external optimiser (C05 assumption) and is outside; calculator method contracts as proved in C07",
+    "technique": "contract-based deductive verification: path enumeration of the real AST over all flag combinations, z3-discharged layout/forwarding obligations",
+}
+CHECKS["C09"] = {
+    "category": "proof",
+    "text": ("upper_limit/upperlimit: level, return_results, scan and every hypotest kwarg reach the scan that is executed, in both modes (this "
+             "obligation found the dropped level in auto-scan mode, repaired by a fix: commit). toms748_scan: the objective handed to the root finder "
+             "is curve_k(poi) - level for k = 0..5 with args=(level, k) and the caller's tolerances, the cache invariant (entry == hypotest of its key) "
+             "is preserved by every insertion, the two bracket-extension loops are handled by loop invariants and end with all curves on the right "
+             "side of level, the returned results are the cache. linear_grid_scan (scan length symbolic): np.interp receives level, curve k reversed "
+             "and the reversed scan, results[i] is the hypotest at scan[i]. Lemma over the assumed np.interp contract: the limit lies in the crossing cell."),
+    "note": "toms748 and np.interp are assumed contracts; best_bracket's numpy mask/argmin body is assumed, not proved; monotone CLs with a crossing is the statement's premise",
+    "technique": "contract-based deductive verification: symbolic execution with loop invariants and a ghost map invariant, z3; native replay with spied numerical library calls",
+}
+for _p in ("C07", "C08", "C09"):
+    NOT_APPLICABLE.pop(_p, None)
